@@ -324,3 +324,105 @@ def program(r, depth, paths=False):
     if paths:
         return g.pathexpr(depth)
     return g.expr(depth)
+
+
+# ---------------------------------------------------------------------------
+# C04: programs biased towards the preconditions of the compiler's rewrites
+
+def c04_program(r, depth=2):
+    g = Gen(r)
+    e = lambda d=1: g.expr(d)
+    lit = lambda: r.choice(["1", "-1", "0", "null", "true", "false", '"a"', "[]", "{}", "[1]", "-(1)", "+1", "1.5", "-0", '"x\\(1)"'])
+    near = lambda: r.choice([".", ".a", "$x", "(1,2)", "empty", "1+1", "[.]", '"a"+"b"', "error", "..", "first", "break $l", "label $m | .", "label $m | 1", "$__loc__" if False else "2"])
+    k = r.randrange(22)
+    if k == 0:   # literal arrays of every shape, including ones that only look constant
+        xs = [r.choice([lit(), lit(), near()]) for _ in range(r.randrange(1, 4))]
+        s = "[" + ", ".join(xs) + "]"
+    elif k == 1:  # literal objects incl. duplicated keys, computed keys
+        kvs = []
+        for _ in range(r.randrange(1, 4)):
+            key = r.choice(["a", "b", '"a"', '"c d"', "(" + near() + ")", '"\\(1)"', "$x", "a"])
+            if key == "$x":
+                kvs.append("$x")
+            else:
+                kvs.append(key + ": " + r.choice([lit(), lit(), near(), "{a: 1}", "[1, 2]"]))
+        s = "{" + ", ".join(kvs) + "}"
+    elif k == 2:  # signed literals, unary on terms with suffixes
+        s = r.choice(["-1", "-(1)", "-1.5", "+1", "-(-1)", "-.", "-.a", "-[1][0]", "- 1 + 2", "-1[0]?", "-(1,2)", "-$x", "-(.a)?", "[-1, -2]", "{a: -1}", ".[-1]", ".[-1:]", ".[:-1]"])
+    elif k == 3:  # constant and near-constant index / slice paths
+        s = r.choice([".a", '."a"', '.["a"]', ".[0]", ".[-1]", ".[1:2]", ".[1:]", ".[:1]", ".[(0)]", '.[("a")]', ".[0,1]", ".[$x]", ".[1:$x]", ".[-1:]", '.["a","b"]', ".[1.5]", ".[null:1]", '."a\\(1)"', ".a.b", ".a[0]", ".[0].a", ".a[1:]", ".a?", ".[0]?", ".[]?"])
+    elif k == 4:  # constant paths on the left of =
+        p = r.choice([".a", ".a.b", ".[0]", ".a[0]", ".[1:2]", ".[0][1]", '.["a"]', ".[$x]", ".a[$x]", ".[(0)]", "(.a)", "(.a).b", ".a[1:]", ".[-1]", ".a[-1]", ".[1:][0]", ".[:1][0]", ".a?", ".[]", ".. ", ".[0,1]"])
+        s = "(" + p + " = " + r.choice([lit(), near(), "(1,2)", ".", ".a"]) + ")"
+    elif k == 5:  # arguments that compile to 0 / 1 / 2 instructions
+        f = r.choice(["g", "h", "select", "map", "first", "isempty", "recurse", "path", "limit(1;", "has", "getpath", "tojson|length|h", "error", "any", "add", "range", "join", "index", "ltrimstr", "flatten", "in", "inside", "contains", "min_by", "sort_by", "group_by", "with_entries", "del", "to_entries|map", "splits_no"])
+        a = r.choice([".", "1", "null", ".a", "$x", "empty", "..", "label $m | .", "break $l", "[]", "{}", '"a"', "(1,2)", ".[]", "-1", "[.]", ".[0]", "not", "error"])
+        if f == "splits_no":
+            s = a
+        elif "|" in f:
+            f1, f2 = f.split("|")[0], f.split("|")[-1]
+            s = f1 + " | " + f2 + "(" + a + ")"
+        elif f.endswith(";"):
+            s = f + " " + a + ")"
+        else:
+            s = f + "(" + a + ")"
+    elif k == 6:  # if with constant branches / conditions
+        s = "if " + r.choice([".", ".a", "true", "null", "1", "(true,false)", "empty", ". == 1", "$x"]) + " then " + r.choice([lit(), near()]) + r.choice(["", " elif . then " + lit()]) + r.choice(["", " else " + lit(), " else " + near(), " else . end | 1 | if . then 2"]) + " end"
+    elif k == 7:  # bindings whose source is identity / one instruction
+        s = r.choice([". as $y | $y", ". as [$y] | $y", ".a as $y | $y, .", "1 as $y | [$y, .]", ". as {a: $y} | $y", ". as $y | . as $z | [$y, $z]", "(.a, .b) as $y | $y", ". as [$y] ?// $y | $y", "$x as $y | $y + 1", "empty as $y | 1", ". as $y | reduce .[]? as $z ($y; .)", "[.[]? as $y | $y]"])
+    elif k in (8, 9):  # self calls in and out of tail position
+        body = r.choice([
+            "if . < 3 then .+1 | f else . end", "if . < 3 then (.+1 | f), . else . end", "if . < 3 then ., (.+1 | f) else empty end",
+            "if . >= 3 then . elif . == 1 then .+2 | f else .+1 | f end", "(select(. < 3) | .+1 | f) // .", ". as $y | if $y < 3 then $y+1 | f else $y end",
+            "if . < 3 then .+1 | f | . else . end", "if . < 3 then try (.+1 | f) catch 0 else . end", "if . < 3 then (.+1 | f) | not else . end",
+            "if . < 3 then [.+1 | f] else . end", "if . < 3 then label $m | (.+1 | f) else . end", "def k: if . < 3 then .+1 | k else . end; k",
+            "if . < 3 then .+1 | (f, f) else . end", "if . < 3 then (.+1, .+2) | f else . end", "if . < 2 then reduce (.+1 | f) as $z (0; . + $z) else . end",
+            "if . < 3 then (.+1 | f) as $z | $z else . end", "if . < 3 then .+1 | f else . end | tostring | length",
+            # helpers nested in f that call f back (not self calls), with and without parameters / local variables
+            "def u(p): p | f; . as $v | if $v > 3 then $v + $x else u($v + 1) end", "def u: select(. >= 0) | . + 1 | f; . as $v | if $v > 3 then $v + $x else u end",
+            "def u: .+1 | f; if . > 3 then . else u end", "def u($p): $p | f; . as $v | if . > 3 then [$v, $x] else u(.+1) end",
+            "def u(p): def w: p | f; w; if . > 3 then . + $x else u(.+1) end", "def u: def w: .+1 | f; w; . as $v | if . > 3 then $v else u end",
+            ". as $v | def u: if . > 3 then $v else .+1 | f end; u", "def u(p): if . > 3 then . else p | u(p) end; . as $v | u(.+1) | $v + . + $x",
+        ])
+        sig = r.choice(["f", "f", "f", "f($u)", "f(u)"])
+        call = {"f": "f", "f($u)": "f(1)", "f(u)": "f(.)"}[sig]
+        body = body.replace("| f", "| " + call).replace("(f, f)", "(%s, %s)" % (call, call))
+        s = "def " + sig + ": " + body + "; " + r.choice(["0", "1", ".", "(0, 2)"]) + " | (try (" + call + ") catch \"e\")"
+    elif k == 10:  # jumps to jumps, dead dup/pop, push/const fusions
+        s = r.choice(["if . then (if .a then 1 else 2 end) else 3 end", "(if . then 1 end | 2)", "(if . then [.] end | 1) + 10", ". as $y | (if .c then $y end | 1) + 10",
+                      "(1 | 2)", "(. | 1)", "($x | 1)", "([.] | 1)", "(.a | null)", "{a: (. | 1)}", "[(if . then $x end | 2), 3]", "((., 1) | 2)", "(.a, .) | 3",
+                      "if . then . else . end | 1", "(try . catch .) | 1", "(. // .) | 1", "1 as $y | 2", "[., 1] | .[1]", "(if . then 1 else . end, 2) | 3"])
+    elif k == 11:
+        s = r.choice(["try error catch .", "try error(1) catch ., 2", ".[]?", ".a?", "..?", "(.a.b)?", "try (1, error, 2) catch 3", "[.[]? | try (if . == 1 then error else . end) catch 9]"])
+    elif k == 12:
+        s = "reduce " + r.choice([".[]?", "range(3)", "empty", "(1,2)", "."]) + " as " + r.choice(["$y", "[$y]", "{a: $y}"]) + " (" + r.choice(["0", ".", "[]", "null"]) + "; " + r.choice([". + 1", "[., $y]", "$y", ".", "empty", "(., 1)"]) + ")"
+    elif k == 13:
+        s = "foreach " + r.choice([".[]?", "range(3)", "(1,2)"]) + " as $y (" + r.choice(["0", "."]) + "; " + r.choice([". + 1", "$y", "."]) + r.choice(["", "; [., $y]", "; ."]) + ")"
+    elif k == 14:
+        s = "(" + r.choice([".a", ".[0]", ".[]", ".a[1:]", "..", ".[1:]"]) + " " + r.choice(["|=", "+=", "-=", "*=", "//="]) + " " + r.choice([lit(), near(), ". + 1", "empty"]) + ")"
+    elif k == 15:
+        s = r.choice(["[paths]", "[path(..)]", "[path(.a[]?)]", "path(.a[0].b)", "[path(first(.[]?))]", "del(.a)", "del(.[0])", "del(.[0,1]?)", "to_entries", "with_entries(.)", "[tostream]", "[limit(2; .[]?)]", "first(.[]?, 1)", "isempty(.[]?)"])
+    else:
+        s = e(depth)
+    return "2 as $x | def g(p): [p, p]; def h($a): $a, .; label $l | " + s
+
+
+CONTEXT = "2 as $x | def g(p): [p, p]; def h($a): $a, .; label $l | "
+
+
+def strip_context(src, r):
+    """Half of the time, give the program the smallest context that closes it (the definitions that precede a
+    program change the bytecode layout, and some faults only show for particular layouts)."""
+    if not src.startswith(CONTEXT) or r.randrange(2):
+        return src
+    body = src[len(CONTEXT):]
+    ctx = ""
+    if "$x" in body:
+        ctx += "2 as $x | "
+    if "g(" in body:
+        ctx += "def g(p): [p, p]; "
+    if "h(" in body:
+        ctx += "def h($a): $a, .; "
+    if "$l" in body:
+        ctx += "label $l | "
+    return ctx + body
